@@ -199,7 +199,7 @@ Definition do_op (cap : cap_t) (d : dec) (o : op) : dec * ev :=
       let '(d', r) := step cap d b in
       match r with
       | OMsg => match st d' with
-                | Done => (d', EvPush OMsg (rev (rbuf d')))
+                | Done => (d', EvPush OMsg (frev (rbuf d')))
                 | _ => (d', EvPush OPanic [])
                 end
       | _ => (d', EvPush r [])
@@ -223,5 +223,5 @@ Fixpoint run (cap : cap_t) (d : dec) (bs : list byte) : dec * list (out * list b
   | [] => (d, [])
   | b :: r => let '(d', o) := step cap d b in
               let '(d'', os) := run cap d' r in
-              (d'', (o, match o with OMsg => rev (rbuf d') | _ => [] end) :: os)
+              (d'', (o, match o with OMsg => frev (rbuf d') | _ => [] end) :: os)
   end.
